@@ -28,6 +28,7 @@ import (
 	"go/ast"
 	"go/format"
 	"go/parser"
+	"go/scanner"
 	"go/token"
 	"math/rand"
 	"os"
@@ -97,6 +98,34 @@ func callIdents(f *ast.File) []*ast.Ident {
 	return ids
 }
 
+// tokens: (kind, literal, line) of every token, comments included; automatic semicolons are dropped (gofmt moves them)
+func tokens(src []byte) [][3]string {
+	var s scanner.Scanner
+	fset := token.NewFileSet()
+	f := fset.AddFile("x.go", fset.Base(), len(src))
+	s.Init(f, src, func(token.Position, string) {}, scanner.ScanComments)
+	var out [][3]string
+	for {
+		pos, tok, lit := s.Scan()
+		if tok == token.EOF {
+			break
+		}
+		if tok == token.SEMICOLON && lit == "\n" {
+			continue
+		}
+		if tok == token.COMMENT {
+			lit = strings.TrimRight(lit, " \t\r")
+		}
+		out = append(out, [3]string{tok.String(), lit, fmt.Sprint(fset.Position(pos).Line)})
+	}
+	for i := range out { // the line is informative only
+		if out[i][0] != "IDENT" {
+			out[i][2] = ""
+		}
+	}
+	return out
+}
+
 func firstDiff(a, b []byte) string {
 	la, lb := bytes.Split(a, []byte("\n")), bytes.Split(b, []byte("\n"))
 	for i := 0; i < len(la) || i < len(lb); i++ {
@@ -155,7 +184,29 @@ func runExpect() {
 			continue
 		}
 		if err != nil {
-			o.Note = "the original does not parse but the file was modified"
+			// The original has syntax errors, so there is no gofmt(original) to compare with. Token-level oracle:
+			// the rewritten text must have the same tokens (comments and literals included, white space aside) except
+			// for identifiers that were substituted: nothing lost, nothing else altered.
+			ot, nt := tokens(ob), tokens(nb)
+			o.Note = "original does not parse: token-level comparison"
+			o.OracleAgree = true
+			o.ParseNewOK = true // not applicable
+			o.OK = len(ot) == len(nt)
+			if !o.OK {
+				o.Note += fmt.Sprintf("; %d tokens before, %d after", len(ot), len(nt))
+			}
+			for i := 0; o.OK && i < len(ot); i++ {
+				if ot[i][0] == nt[i][0] && (ot[i][1] == nt[i][1] ||
+					((ot[i][0] == "INT" || ot[i][0] == "FLOAT" || ot[i][0] == "IMAG") && strings.EqualFold(ot[i][1], nt[i][1]))) {
+					continue
+				}
+				if ot[i][0] == "IDENT" && nt[i][0] == "IDENT" && i+1 < len(ot) && (ot[i+1][0] == "(" || ot[i+1][0] == ")") {
+					o.Renames = append(o.Renames, [3]string{ot[i][1], nt[i][1], ot[i][2]})
+					continue
+				}
+				o.OK = false
+				o.FirstDiff = fmt.Sprintf("token %d: %v became %v", i, ot[i], nt[i])
+			}
 			enc.Encode(o)
 			continue
 		}
@@ -238,6 +289,10 @@ type caseT struct {
 	Gofmt   bool     `json:"gofmt"`   // the user files are gofmt-formatted
 	Files   []string `json:"files"`
 	Pkg     string   `json:"pkg"` // package directory inside the case directory ("" = the case directory itself)
+	// History: an earlier version of some files. The check first puts these in place, runs goderive without flags
+	// (so that the derived.gen.go of that earlier state exists), restores the current files and only then observes.
+	History map[string]string `json:"history"`
+	Broken  bool              `json:"broken"` // a user file has syntax errors: whatever happens, no user file may change
 }
 
 var cases []caseT
@@ -258,6 +313,9 @@ func add(c caseT, files map[string]string, modes map[string]os.FileMode) {
 		must(os.Chmod(filepath.Join(*out, c.Dir, n), m))
 	}
 	c.Files = names
+	for k, v := range c.History {
+		c.History[k] = strings.ReplaceAll(strings.ReplaceAll(v, "CASE", c.Dir), "PKG", c.Dir)
+	}
 	cases = append(cases, c)
 }
 
@@ -655,6 +713,111 @@ func genCorpus() {
 			modes = bystanders(files)
 			add(caseT{Kind: "rename", What: v.what + ", unformatted", Renames: v.flags, Length: v.length, Gofmt: false}, files, modes)
 		}
+	}
+
+	// --- comments around a renamed callee (F60: the identifier is renamed in place)
+	{
+		head := "package PKG\n" + types2 + "\nfunc Eq1(a, b *S) bool { return deriveEqual(a, b) }\n"
+		shapes := []struct{ what, dup, conf string }{
+			{"block comments before and after the callee",
+				"func Eq2(a, b *S) bool {\n\treturn /* c */ deriveEqualAgain /* d */ (a, b)\n}\n",
+				"func Eq3(a, b *T) bool {\n\treturn /* c */ deriveEqual /* d */ (a, b)\n}\n"},
+			{"a line comment forcing the call onto the next line",
+				"func Eq2(a, b *S) bool {\n\treturn true && // why\n\t\tderiveEqualAgain(a, b)\n}\n",
+				"func Eq3(a, b *T) bool {\n\treturn true && // why\n\t\tderiveEqual(a, b)\n}\n"},
+			{"callee at the start of a line after a comment line",
+				"func Eq2(a, b *S) bool {\n\tr :=\n\t\t// the call follows\n\t\tderiveEqualAgain(a, b)\n\treturn r\n}\n",
+				"func Eq3(a, b *T) bool {\n\tr :=\n\t\t// the call follows\n\t\tderiveEqual(a, b)\n\treturn r\n}\n"},
+			{"comments inside the argument list and after the call",
+				"func Eq2(a, b *S) bool {\n\treturn deriveEqualAgain( // first\n\t\ta, /* mid */ b, // second\n\t) // after\n}\n",
+				"func Eq3(a, b *T) bool {\n\treturn deriveEqual( // first\n\t\ta, /* mid */ b, // second\n\t) // after\n}\n"},
+			{"doc comment, directive and a comment group between declarations",
+				"// Eq2 doc.\n//\n//go:noinline\nfunc Eq2(a, b *S) bool { return deriveEqualAgain(a, b) } // trailing\n\n/* lonely\n   block */\n\n// another group\n",
+				"// Eq3 doc.\n//\n//go:noinline\nfunc Eq3(a, b *T) bool { return deriveEqual(a, b) } // trailing\n\n/* lonely\n   block */\n"},
+		}
+		for _, sh := range shapes {
+			for _, k := range []string{"dedup", "autoname", "both"} {
+				src := head + "\n"
+				if k != "autoname" {
+					src += sh.dup + "\n"
+				}
+				if k != "dedup" {
+					src += sh.conf + "\n"
+				}
+				ln := map[string]string{"dedup": "shorter", "autoname": "longer", "both": "mixed"}[k]
+				files := map[string]string{"u.go": src}
+				modes := bystanders(files)
+				add(caseT{Kind: "rename", What: "comments around the renamed callee: " + sh.what + " (" + k + ")", Renames: k, Length: ln, Gofmt: false}, files, modes)
+			}
+		}
+	}
+
+	// --- user files with syntax errors that hold a call to rename (F61: refused, nothing written back)
+	{
+		headOK := "package PKG\n" + types2 + "\nfunc Eq1(a, b *S) bool { return deriveEqual(a, b) }\n"
+		dup := "\nfunc Eq2(a, b *S) bool { return deriveEqualAgain(a, b) }\n"
+		conf := "\nfunc Eq3(a, b *T) bool { return deriveEqual(a, b) }\n"
+		errs := []struct{ what, text string }{
+			{"bad expression", "\nfunc Broken1() int { return 1 + }\n"},
+			{"bad statement", "\nfunc Broken2() {\n\tif {\n\t}\n\tx := := 1\n}\n"},
+			{"bad declaration", "\nfunc ( {\n\nvar = 5\n"},
+			{"unterminated string", "\nvar s = \"never closed\n"},
+		}
+		for _, e := range errs {
+			for _, where := range []string{"before", "after", "other-file"} {
+				for _, k := range []string{"dedup", "autoname"} {
+					clash := dup
+					if k == "autoname" {
+						clash = conf
+					}
+					files := map[string]string{}
+					switch where {
+					case "before":
+						files["u.go"] = headOK + e.text + clash + "\n// Tail must survive.\nfunc Tail() {}\n"
+					case "after":
+						files["u.go"] = headOK + clash + e.text + "\n// Tail must survive.\nfunc Tail() {}\n"
+					case "other-file":
+						files["u.go"] = headOK + clash
+						files["v.go"] = "package PKG\n" + e.text + "\n// Tail must survive.\nfunc Tail() {}\n"
+					}
+					modes := bystanders(files)
+					add(caseT{Kind: "loaderr", What: fmt.Sprintf("syntax error (%s) %s the call to rename (%s)", e.what, where, k), Renames: k, Gofmt: false, Broken: where != "other-file"}, files, modes)
+				}
+			}
+		}
+	}
+
+	// --- history: an old derived.gen.go is present, a newly added call reuses a generated name for another
+	// argument type list in the first file, further files follow (both clashing calls resolve into the old file)
+	{
+		types := "package PKG\n" + types2
+		a1 := "package PKG\n\n// Eq1 was there before.\nfunc Eq1(a, b *S) bool { return deriveEqual(a, b) } // old call\n"
+		a2 := a1 + "\n// EqT is new: the same name for another argument type.\nfunc EqT(a, b *T) bool {\n\treturn deriveEqual(a, b) // new call\n}\n"
+		a2dup := a1 + "\n// EqAgain is new: another name for the same argument type.\nfunc EqAgain(a, b *S) bool {\n\treturn deriveEqualAgain(a, b) // new call\n}\n"
+		bfile := "package PKG\n\n// Cmp lives in a later file.\nfunc Cmp(a, b *T) int { return deriveCompare(a, b) } // later file\n"
+		cfile := "package PKG\n\n// H lives in the last file.\nfunc H(a *S) uint64 { return deriveHash(a) }\n"
+		for _, v := range []struct{ what, now, flags, length string }{
+			{"new conflicting call in the first file, old derived.gen.go present", a2, "autoname", "longer"},
+			{"new duplicate call in the first file, old derived.gen.go present", a2dup, "dedup", "shorter"},
+		} {
+			for _, nfiles := range []int{1, 2, 3} {
+				files := map[string]string{"a.go": v.now, "types.go": types}
+				hist := map[string]string{"a.go": a1}
+				if nfiles >= 2 {
+					files["b.go"] = bfile
+				}
+				if nfiles >= 3 {
+					files["c.go"] = cfile
+				}
+				modes := bystanders(files)
+				add(caseT{Kind: "rename", What: fmt.Sprintf("history: %s, %d file(s) with calls", v.what, nfiles), Renames: v.flags, Length: v.length, Gofmt: true, History: hist}, files, modes)
+			}
+		}
+		// the clash sits in a LATER file, the earlier files hold calls that resolve into the old output
+		files := map[string]string{"a.go": a1, "types.go": types, "b.go": bfile + "\nfunc EqT(a, b *T) bool { return deriveEqual(a, b) } // new call in the later file\n", "c.go": cfile}
+		modes := bystanders(files)
+		add(caseT{Kind: "rename", What: "history: new conflicting call in a later file, old derived.gen.go present", Renames: "autoname", Length: "longer", Gofmt: true,
+			History: map[string]string{"b.go": bfile}}, files, modes)
 	}
 
 	// --- I/O failure: derived.gen.go is a non-empty directory (os.Create / os.Remove fail): a message, nothing touched
